@@ -32,9 +32,26 @@ class Frame:
                 for t_, v_ in zip(n.targets[0].elts, n.value.elts):
                     if isinstance(t_, ast.Name):
                         self.defs.setdefault(t_.id, []).append(v_)
+            elif isinstance(n, ast.Assign) and len(n.targets) == 1 and isinstance(n.targets[0], ast.Tuple) and \
+                    len(n.targets[0].elts) == 2 and isinstance(n.value, ast.Call) and U(n.value.func) == 'divmod' and \
+                    len(n.value.args) == 2:
+                # q, r = divmod(a, b)
+                a_, b_ = n.value.args
+                q_, r_ = n.targets[0].elts
+                if isinstance(q_, ast.Name):
+                    self.defs.setdefault(q_.id, []).append(ast.copy_location(ast.BinOp(left=a_, op=ast.FloorDiv(), right=b_), n))
+                if isinstance(r_, ast.Name):
+                    self.defs.setdefault(r_.id, []).append(ast.copy_location(ast.BinOp(left=a_, op=ast.Mod(), right=b_), n))
+        # the per-item loop variable is whatever the code calls it: `for <v> in range(blockshape[0])`
+        if 'i' in self.atom_text:
+            self.atom_text = dict(self.atom_text)
+            for n in ast.walk(f.node):
+                if isinstance(n, ast.For) and isinstance(n.target, ast.Name) and isinstance(n.iter, ast.Call) and \
+                        U(n.iter.func) == 'range' and len(n.iter.args) == 1 and U(n.iter.args[0]).endswith('blockshape[0]'):
+                    self.atom_text[n.target.id] = self.atom_text['i']
 
     def ev(self, e, depth=0):
-        if depth > 8:
+        if depth > 24:
             return None
         t = U(e)
         if t in self.atom_text:
@@ -81,8 +98,10 @@ def check_plane_reader(ctx, rule, f):
             q, child = parent(n), n
             while q is not None and q is not f.node:
                 if isinstance(q, ast.If) and isinstance(q.test, ast.Compare) and len(q.test.ops) == 1 and \
-                        isinstance(q.test.ops[0], ast.Lt) and U(q.test.left) == 'i' and U(q.test.comparators[0]) == 'planes_to_read':
-                    side = 'real' if any(child is s_ or any(child is x for x in ast.walk(s_)) for s_ in q.body) else 'pad'
+                        isinstance(q.test.ops[0], (ast.Lt, ast.GtE)) and fr.atom_text.get(U(q.test.left)) == 'i' and \
+                        U(q.test.comparators[0]) == 'planes_to_read':
+                    inb = any(child is s_ or any(child is x for x in ast.walk(s_)) for s_ in q.body)
+                    side = 'real' if inb == isinstance(q.test.ops[0], ast.Lt) else 'pad'
                 child, q = q, parent(q)
             want_p = {'real': (ord_real,), 'pad': (ord_last,)}.get(side, (ord_real, ord_last))
             if p in want_p:
